@@ -68,6 +68,21 @@ static void run() {
             Case c; c.set("kind", "witness"); c.set("lang", REG->at(li).name_en); c.set("coin", coin); c.set("shown", shown_hex(shown)); set_current(c); std::string m = oracle(c); if (!m.empty() && enum_fail(c, m)) return;
         }
     }
+    // exact-bound witnesses: data words drawn from the words of maximal length until the check word (reference arithmetic) is of maximal length too
+    for (size_t li = 0; li < REG->size(); li++) {
+        if ((int)(li % (size_t)a.nworkers) != a.worker % (int)REG->size() && a.nworkers >= (int)REG->size()) continue;
+        Bounds b; std::string why; if (!bounds_of(REG->at(li), b, &why)) continue; const lib::LibWords& lw = lib::lib_words(REG->at(li));
+        std::vector<unsigned> top, top_even; for (int i = 0; i < 2048; i++) if (lw.w[i].size() == b.maxw) { top.push_back((unsigned)i); if (!(i & 1)) top_even.push_back((unsigned)i); }
+        if (top.size() < 4 || top_even.empty()) { top.clear(); top_even.clear(); for (int j = 0; j < 12; j++) { top.push_back((unsigned)b.order[j]); if (!(b.order[j] & 1)) top_even.push_back((unsigned)b.order[j]); } }   // few maximal words: take the 12 longest
+        if (top.empty() || top_even.empty()) continue; size_t minlen = lw.w[top.back()].size(); for (unsigned x : top) minlen = std::min(minlen, lw.w[x].size()); SplitMix sm(mix64(a.seed * 77 + li + (uint64_t)a.worker * 1315423911ull)); int found = 0;
+        for (int tries = 0; tries < (a.thorough() ? 400000 : 60000) && found < 4; tries++) {
+            std::array<unsigned, 16> shown{}; for (int i = 1; i < 16; i++) shown[i] = top[sm.below((uint32_t)top.size())]; shown[2] = top_even[sm.below((uint32_t)top_even.size())];
+            unsigned coin = sm.below(2048); std::array<unsigned, 16> co = shown; co[1] ^= coin; unsigned chk = model::check_value(co);
+            if (lw.w[chk].size() < minlen) continue; found++;
+            Case c; c.set("kind", "witness"); c.set("lang", REG->at(li).name_en); c.set("coin", coin); c.set("shown", shown_hex(shown)); c.set("exact", 1); set_current(c); std::string m = oracle(c); if (!m.empty() && enum_fail(c, m)) return;
+            W().ev.count("exact-bound-witness:" + REG->at(li).name_en);
+        }
+    }
     rc_run("c17-witnesses", a.n(3000, 200000), 100, [&]() {
         const lib::LangEntry& le = REG->at(*g::lang_index()); Bounds b; std::string why; RC_PRE(bounds_of(le, b, &why));
         int topk = *rc::gen::element(1, 2, 3, 6, 12, 40); std::array<unsigned, 16> shown{};
